@@ -42,6 +42,20 @@ def aliases_of(vals: list[SSAValue]) -> list[SSAValue]:
     return result
 
 
+def common_loop(op_a: Operation, op_b: Operation) -> scf.ForOp | None:
+    """
+    Returns the innermost scf.for that contains both operations (at any nesting
+    depth), the loop whose back edge orders op_b of one iteration after op_a of an
+    earlier one.
+    """
+    parent = op_a.parent_op()
+    while parent is not None:
+        if isinstance(parent, scf.ForOp) and parent.is_ancestor(op_b):
+            return parent
+        parent = parent.parent_op()
+    return None
+
+
 class InsertSyncBarrier(ModulePass):
     """This pass inserts  snax synchronisation barriers in a program.
     Synchronisation barriers are required when data is shared between
@@ -103,17 +117,13 @@ class InsertSyncBarrier(ModulePass):
 
                     if dispatch_to_dm(op_in_module, ctx) and not dispatch_to_dm(op_use.operation, ctx):
                         ops_to_sync.append(op_use.operation)
-                        if op_in_module.parent_op() == op_use.operation.parent_op() and isinstance(
-                            for_op := op_in_module.parent_op(), scf.ForOp
-                        ):
+                        if (for_op := common_loop(op_in_module, op_use.operation)) is not None:
                             assert isinstance(for_op.body.block.last_op, scf.YieldOp)
                             ops_to_sync.append(for_op.body.block.last_op)
 
                     if dispatch_to_compute(op_in_module, ctx) and not dispatch_to_compute(op_use.operation, ctx):
                         ops_to_sync.append(op_use.operation)
-                        if op_in_module.parent_op() == op_use.operation.parent_op() and isinstance(
-                            for_op := op_in_module.parent_op(), scf.ForOp
-                        ):
+                        if (for_op := common_loop(op_in_module, op_use.operation)) is not None:
                             assert isinstance(for_op.body.block.last_op, scf.YieldOp)
                             ops_to_sync.append(for_op.body.block.last_op)
 
